@@ -437,7 +437,7 @@ func (s *series) finish() {
 			s.viol(leakKey(st)+":after-shutdown", "after Do returned and every transport was closed a goroutine is still inside the broker:\n"+st)
 		}
 	}
-	s.r.Eval(1)
+	s.r.Count("series", 1)
 	s.r.Count("generations", int64(len(x.GenClosed)))
 	s.r.Count("events_logged", int64(w.Log.Len()))
 	s.r.Count("probes", int64(x.ProbesLive+x.ProbesIdle))
@@ -457,6 +457,7 @@ func runSeries(r *mon.Run, engine string, idx int, gens []Gen, och int, leak boo
 	s.x.NoAdmissionVerdicts = true
 	for n, g := range gens {
 		s.runGen(n, g)
+		r.Eval(1) // one evaluation per generation (same granularity as Distinct)
 		r.Distinct(g.String())
 	}
 	s.finish()
